@@ -308,7 +308,7 @@ def corpus():
   add('C03', 'subset test becomes issuperset', 'bad', 'R3/pruning', edit(mm, MMQ + 'exhaustive_search.skip_if_subset', lambda n: isinstance(n, ast.Attribute) and n.attr == 'issubset', 'set(p).issuperset'))
   add('C03', 'sizes sliced [:-1]', 'bad', 'R1/full-iteration', edit(mm, MMQ + 'exhaustive_search', lambda n: isinstance(n, ast.For) and norm(n.target) == 'treatment_group_size',
                                                                    lambda s, n: s.replace('in treatment_group_sizes:', 'in list(treatment_group_sizes)[:-1]:', 1)))
-  add('C03', 'push guarded by tests_ok', 'bad', 'R4/push', edit(mm, MMQ + 'exhaustive_search', lambda n: isinstance(n, ast.Expr) and norm(n) == 'results.push(0, design)',
+  add('C03', 'push guarded by tests_ok', 'bad', 'R2/skip-audit', edit(mm, MMQ + 'exhaustive_search', lambda n: isinstance(n, ast.Expr) and norm(n) == 'results.push(0, design)',
                                                                lambda s, n: 'if diag.tests_ok:\n            results.push(0, design)'))
   add('C03', 'two Scoring arguments swapped', 'bad', 'R5/ordering', edit(sc, 'TBRMMScore.score', is_call('Scoring'),
                                                                         lambda s, n: s.replace('int(self.diag.corr_test), int(self.diag.aatest.test_ok)', 'int(self.diag.aatest.test_ok), int(self.diag.corr_test)')))
